@@ -664,6 +664,12 @@ pub fn replay_fun(scenario: &str, input: &Value) -> Vec<Finding> {
 
 pub fn plan(quick: bool) -> Plan {
     let mut plan = plan_base();
+    // predefined channels, users and operators govern behaviour as documented: the
+    // configuration lattice of C16 and configured-user / configured-operator scenarios of C03 / C11
+    plan.parts.push(Part::Custom("fun:c16-lattice".into(), Box::new(move || super::chat::c16_lattice(quick))));
+    plan.parts.extend(super::reg::c20_user_parts(quick));
+    plan.parts.extend(super::life::c20_oper_parts(quick));
+    plan.rule.push_str("; (f) predefined channels (the 16-setting lattice of C16: settings present from start-up, listed in MODE queries, ranks given on join, persistence while empty), predefined users (3 configurations of C03) and predefined operators / default user modes (2 configurations of C11) on the wire");
     if !quick {
         plan.parts.push(Part::Custom("bind:c20-tls".into(), Box::new(part_tls)));
         plan.rule.push_str("; (d, thorough) every history up to depth 2 of a two-user scenario (JOIN, PRIVMSG, WHOIS, NICK, TOPIC, PART, QUIT) over plain TCP against the binary started without [tls] and over TLS (rustls client trusting test_data/cert.crt) against the same binary started with [tls]: transcripts equal except RPL_WHOISSECURE");
